@@ -63,6 +63,18 @@ claimed = {
    text="17k (quick) / 330k (thorough) snapshot-mutate-resnapshot cases over 11 provenances (constructed, decoded by every copying/owning entry point, re-stamped, derived, control messages): every public accessor/serializer is observed, every slice passed in and every slice handed out (up to capacity) is scribbled on, and the object must still equal an untouched twin; a race phase releases 16 first-call readers by a barrier while a 17th goroutine mutates inputs/outputs (race detector = aliasing witness; shared decode identity checked)." + HELD,
    note="Encode-once of a constructed body has no API-visible identity; only its consequences (identical bytes, no race report) are judged. Documented ownership transfer (DecodeOwned*) is exempt from input-mutation checks.",
    technique="snapshot/mutate/compare monitor against a pristine twin + race detector under barrier-released concurrent readers"),
+ "C13": dict(level=E,
+   text="36k (quick) / 600k (thorough) messages over the stated item grammar (ASCII items over all 256 byte values incl. every single byte and every ordered pair of grammar-relevant bytes, numeric extremes, empty items, nesting to 64, permitted JIS-8/localized text) x all 72 encoder option combinations: strict encode -> strict parse must give one message with the same S/F/W and an Equal body (also compared accessor by accessor); conversely 20k / 300k grammar-generated texts the strict parser accepts are re-encoded under every option set and re-parsed." + HELD,
+   note="'Control characters' is read as Unicode Cc / bytes 00-1F,7F-9F. One genuine defect was repaired ('>' unescaped); two remain as known findings (localized text is rendered with Go quoting that the parser never unescapes).",
+   technique="round-trip runtime monitor over grammar-hostile generated messages and parser-accepted texts x all option combinations"),
+ "C14": dict(level=E,
+   text="118k (quick) / 4M (thorough) inputs (exhaustive 1-2 symbol strings over a 40-symbol alphabet, grammar-directed mutations of valid SML, size hints of every form, nesting ladders to 10^7, unterminated strings/comments, multi-byte runes, random bytes) to Parse/ParseStrict/ParseMessage/ParseHeader in memory-capped child processes that log each risky input first (a process death is attributed to it), error positions recomputed from the offset, a live allocation meter for size hints, a CPU-time scaling probe over 12 families, and a race phase with 16 goroutines each owning parser/encoder instances." + HELD,
+   note="Memory cap 4 GiB and the allocation bound for size hints are stated assumptions for 'resource-bounded'. Four genuine defects found here were repaired (panic, size-hint pre-allocation x2 keys, unbounded recursion). Quick-tier danger shards run with a 128 MiB max stack.",
+   technique="crash-contained child processes with per-input attribution + allocation/CPU meters + error-position oracle; race detector for instance isolation"),
+ "C15": dict(level=E,
+   text="95k (quick) / 1.8M (thorough) error-free item trees (constructed and decoded; all types, 0/1/many elements, nesting, empty-item children, numeric extremes): sml.Encode(item) must be byte-identical to item.ToSML(), and every numeric/boolean/binary leaf rendered by either must parse back (wrapped as a message body) to the same value." + HELD,
+   note="Parse-back is judged per leaf (the property claims it for elements); NaN payload bits excluded.",
+   technique="differential runtime monitor between the two renderers + parse-back oracle"),
  "C16": dict(level=E,
    text="~100k (quick) / 2.4M (thorough) recover-wrapped constructor calls over Go types x byte sizes x values at/beyond every bound x call shapes, judged by a reference clamp model (no panic, clamp not wrap, errors for unsupported/unparsable, cross-shape equality), an errored-item battery (never Equal, refused by NewDataMessage / NewDataMessageFromHeader / Derive.Build, nested to depth 5), and a wire half: 864 (quick) sends of errored items through every send call of live connections with the peer's log proving that no byte left." + HELD,
    note="Where the docs explicitly document an error instead of a clamp both are accepted (never another value). Typed-nil item pointers are outside the statement (noted, not judged). Wire half: hsmsss.",
